@@ -139,9 +139,16 @@ def main():
         sp = os.path.join(srcdir, 'z%04d.zi' % i)
         open(sp, 'w').write(src)
         good = True
+        # 1 zone in 7 is additionally range-limited (zic -r @lo/@hi): truncated tables, an explicit entry at each
+        # cut point and an empty footer
+        rng = []
+        if r.random() < 0.15:
+            lo = r.choice([-2000000000, -1000000000, 0, 100000000, 631152000])
+            hi = lo + r.choice([400000000, 1300000000, 2500000000])
+            rng = ['-r', '@%d/@%d' % (lo, hi)]
         for form in ('slim', 'fat'):
             d = os.path.join(a.out, form)
-            p = subprocess.run([zic, '-b', form, '-d', d, sp], stdout=subprocess.PIPE, stderr=subprocess.PIPE)
+            p = subprocess.run([zic, '-b', form] + rng + ['-d', d, sp], stdout=subprocess.PIPE, stderr=subprocess.PIPE)
             if p.returncode != 0 or not os.path.exists(os.path.join(d, name)):
                 good = False
         if good:
